@@ -34,8 +34,31 @@ def mkMsg (total : Nat) (seed : Nat) (typ : Nat) : Option Bytes :=
       body [0x5a, UInt8.ofNat (l / 16777216 % 256), UInt8.ofNat (l / 65536 % 256),
             UInt8.ofNat (l / 256 % 256), UInt8.ofNat (l % 256)] l
 
-/-- Item decoder for exactly the message format above (what `cbor.Decode(buf, &[]RawMessage)`
-    answers on such buffers): complete / incomplete / malformed. -/
+/-- A definite byte string whose head starts `base` bytes into the buffer `b` (`rest` = the
+    buffer from the head on): complete / incomplete / malformed. -/
+def bytesHead (b : Bytes) (base : Nat) (rest : Bytes) : Res :=
+  match rest with
+  | [] => .needMore
+  | h :: rest3 =>
+    let fin (w l : Nat) : Res := if b.length ≥ base + w + l then .ok (base + w + l) else .needMore
+    if 0x40 ≤ h.toNat ∧ h.toNat ≤ 0x57 then fin 1 (h.toNat - 0x40)
+    else if h = 0x58 then
+      (match rest3 with
+       | a :: _ => fin 2 a.toNat
+       | _ => .needMore)
+    else if h = 0x59 then
+      (match rest3 with
+       | a :: c :: _ => fin 3 (a.toNat * 256 + c.toNat)
+       | _ => .needMore)
+    else if h = 0x5a then
+      (match rest3 with
+       | a :: c :: d :: e :: _ => fin 5 (((a.toNat * 256 + c.toNat) * 256 + d.toNat) * 256 + e.toNat)
+       | _ => .needMore)
+    else .bad
+
+/-- Item decoder for exactly the message formats of this harness (what
+    `cbor.Decode(buf, &[]RawMessage)` answers on such buffers): `[t]`, `[t, bytes]`,
+    `[t, 24(bytes)]`. -/
 def wfMini (b : Bytes) : Res :=
   match b with
   | [] => .needMore
@@ -50,23 +73,34 @@ def wfMini (b : Bytes) : Res :=
        if t.toNat ≥ 24 then .bad else
        match rest2 with
        | [] => .needMore
-       | h :: rest3 =>
-         let fin (w l : Nat) : Res := if b.length ≥ 2 + w + l then .ok (2 + w + l) else .needMore
-         if 0x40 ≤ h.toNat ∧ h.toNat ≤ 0x57 then fin 1 (h.toNat - 0x40)
-         else if h = 0x58 then
-           (match rest3 with
-            | a :: _ => fin 2 a.toNat
-            | _ => .needMore)
-         else if h = 0x59 then
-           (match rest3 with
-            | a :: c :: _ => fin 3 (a.toNat * 256 + c.toNat)
-            | _ => .needMore)
-         else if h = 0x5a then
-           (match rest3 with
-            | a :: c :: d :: e :: _ => fin 5 (((a.toNat * 256 + c.toNat) * 256 + d.toNat) * 256 + e.toNat)
-            | _ => .needMore)
-         else .bad)
+       | 0xd8 :: rest3 =>
+         (match rest3 with
+          | [] => .needMore
+          | g :: rest4 => if g = 0x18 then bytesHead b 4 rest4 else .bad)
+       | _ => bytesHead b 2 rest2)
   | _ => .bad
+
+/-- Real block-fetch `MsgBlock`: `[4, 24(bytes(content))]` with the minimal byte-string head
+    (what `MsgBlock.MarshalCBOR` produces). -/
+def mkBlock (l : Nat) (seed : Nat) : Bytes :=
+  let hdr : Bytes :=
+    if l ≤ 23 then [UInt8.ofNat (0x40 + l)]
+    else if l ≤ 255 then [0x58, UInt8.ofNat l]
+    else if l ≤ 65535 then [0x59, UInt8.ofNat (l / 256), UInt8.ofNat (l % 256)]
+    else [0x5a, UInt8.ofNat (l / 16777216 % 256), UInt8.ofNat (l / 65536 % 256),
+          UInt8.ofNat (l / 256 % 256), UInt8.ofNat (l % 256)]
+  [0x82, 0x04, 0xd8, 0x18] ++ hdr ++ genBytes l (UInt64.ofNat seed)
+
+/-- Content of a received `MsgBlock` (strip array head, type, tag and byte-string head). -/
+def blockContent (m : Bytes) : Option Bytes :=
+  match m with
+  | 0x82 :: 0x04 :: 0xd8 :: 0x18 :: h :: rest =>
+    if 0x40 ≤ h.toNat ∧ h.toNat ≤ 0x57 then some rest
+    else if h = 0x58 then some (rest.drop 1)
+    else if h = 0x59 then some (rest.drop 2)
+    else if h = 0x5a then some (rest.drop 4)
+    else none
+  | _ => none
 
 def chunkLens (total : Nat) : List Nat :=
   if total = 0 then [] else
@@ -162,6 +196,26 @@ def handle (line : String) : Out :=
         | .error e, _ => { model := e, spec := spec }
         | _, .error e => { model := e ++ "(2)", spec := spec }
       | _, _ => { model := "reject:no-trace", spec := spec }
+  | "bk" :: _pab :: _pba :: _seed :: bs =>
+    let parseBlk (s : String) : Option (Nat × Nat) :=
+      match s.splitOn "." with
+      | [l, sd] => do let l ← parseNat? l; let sd ← parseNat? sd; pure (l, sd)
+      | _ => none
+    match bs.mapM parseBlk with
+    | none => badOp
+    | some blks =>
+      let msgs : List Bytes := [[0x81, 0x02]] ++ blks.map (fun b => mkBlock b.1 b.2) ++ [[0x81, 0x05]]
+      let contents : List Bytes := blks.map fun b => genBytes b.1 (UInt64.ofNat b.2)
+      let spec := s!"recv={fpsStr msgs} blocks={fpsStr contents} err=none *"
+      match (field? "segs" impl).bind parseNatList? with
+      | none => { model := "reject:no-trace", spec := spec }
+      | some lens =>
+        match replayDir msgs lens with
+        | .error e => { model := e, spec := spec }
+        | .ok (got, err) =>
+          let ls := if lens.isEmpty then "-" else ",".intercalate (lens.map toString)
+          let cs := got.filterMap blockContent
+          { model := s!"recv={fpsStr got} blocks={fpsStr cs} err={errStr err} segs={ls}", spec := spec }
   | _ => badOp
 
 end GV.Drv.C10
